@@ -120,7 +120,10 @@ func c12Oracle(c ev.Case) Res {
 
 // gateInputs: attacks that fire only in a late pass, and near misses with a closed gate.
 var c12Gated = []string{"1 union select 1", "1' union select 1 -- ", "1\" union select 1 -- ", "x' or 1=1 #", "x\" or 1=1 #", "1 #\nunion select 1", "1 --x\nunion select 1", "1' --x\nunion select 1", "x' #\n or 1=1", "x\" #\n or 1=1",
-	"1 or 1=1 #", "1 --x\n or 1=1", "' or 1=1 --x", "\" or \"\"=\"", "' or ''='", "1' and sleep(5)#", "1\" and sleep(5)#", "a' #\nunion select 1", "a\" --x\nunion select 1", "--x\n1 union select 1", "#\n1 union select 1", "1-- -\nunion", "1 --\n or 1=1", "admin'--", "admin\"--", "admin'#", "admin\"#", "1'--x", "1\"#x"}
+	"1 or 1=1 #", "1 --x\n or 1=1", "' or 1=1 --x", "\" or \"\"=\"", "' or ''='", "1' and sleep(5)#", "1\" and sleep(5)#", "a' #\nunion select 1", "a\" --x\nunion select 1", "--x\n1 union select 1", "#\n1 union select 1", "1-- -\nunion", "1 --\n or 1=1", "admin'--", "admin\"--", "admin'#", "admin\"#", "1'--x", "1\"#x",
+	// state that must not survive from one reading into the next
+	"x\" or 1=1 -- it's #1", "admin\" or 1=1 -- don't tell #1", "foo --1 /* bar", "order_id --x /* pending review */", "admin' #\"--", "1'#\"--", "'=\"=\"", "'#'--\"",
+	"hello world /* it'", "a b /* '", "1 2 /*'", "a' b /* \"", "rock' and roll", "1' and x", "rock\" and roll", "O'Brien\" or 1=1 -- ", "x\" or 'a'='a", "\\' or 1=1 -- ", "\\\\' or 1=1 -- ", "\\\\\\\\' union select password from users where id=1 -- "}
 
 func TestC12(t *testing.T) {
 	c := NewCheck(t, "C12", "kind cascade: IsSQLi(s) must equal (verdict,fingerprint) of the first firing element of [asis/ANSI, asis/MySQL if that ANSI pass counted # or --x, '/ANSI if s has ', '/MySQL if that pass counted, \"/MySQL if s has \"], each evaluated on a fresh state through the accessor; kind embed: for q in {',\"} and both dialects, reading s inside q and reading q+s as-is give equal fingerprint, statistics and folded tokens (class, value, length, close mark), and equal verdicts unless the fingerprint is sos or s&s; non-trivial = fires in a pass other than the first, or nothing fires although at least one gate was open (cascade; a closed gate can never hide a firing pass, because without the gate byte the gated reading equals an earlier one or is a single unclosed string) / verdict true (embed); enumerations duplicate-free, random parts deduplicated by FNV-64")
@@ -131,7 +134,7 @@ func TestC12(t *testing.T) {
 		w.Judge(ev.Case{Kind: "embed", In: s})
 	}
 	p := c.rec.NewPart("tokens_exhaustive", "every space-joined sequence of 1..4 atoms over the token atoms extended with quote and comment gates", false, true, "")
-	atoms := append(append([]string{}, tokenAtoms...), "'", "\"", "#", "--x", "-- ", "#\n")
+	atoms := append(append([]string{}, tokenAtoms...), "'", "\"", "#", "--x", "-- ", "#\n", "/*", "--1")
 	c.EnumSeq(p, atoms, " ", 1, pick(3, 4), both)
 	Lb := pick(3, 4)
 	p = c.rec.NewPart("bytes_exhaustive", fmt.Sprintf("every string of length 1..%d over the SQL byte-class alphabet", Lb), false, true, "")
@@ -147,6 +150,10 @@ func TestC12(t *testing.T) {
 		}
 	}
 	c.ParRange(p, int64(len(gi)), func(w *Worker, i int64) { both(w, gi[i]) })
+
+	bnd := sqlBoundaryInputs()
+	p = c.rec.NewPart("boundary_inputs", "slot-, clip- and length-boundary inputs (see C06)", false, true, "")
+	c.ParRange(p, int64(len(bnd)), func(w *Worker, i int64) { both(w, bnd[i]) })
 
 	g := gen.SQLInput()
 	p = c.rec.NewPart("rapid_fragments", "rapid over the SQL fragment grammar", true, false, "")
